@@ -1,6 +1,6 @@
 #!/bin/sh
 # tools/seedall.sh P1 P2 ... : evaluate mutants a and b of each property, summary to stdout, full logs in /dev/shm/seedlog_*
-for P in "$@"; do for M in a b; do
+for P in "$@"; do for M in ${SEED_LETTERS:-a b}; do
   tools/seedtest.sh $P $M > /dev/shm/seedlog_${P}_$M.txt 2>&1
   CLEAN=$(grep -A1 "== clean demo" /dev/shm/seedlog_${P}_$M.txt | tail -1); MUT=$(grep -A1 "== mutant demo" /dev/shm/seedlog_${P}_$M.txt | tail -1); SUITE=$(grep -A2 "== mutant test suite" /dev/shm/seedlog_${P}_$M.txt | tail -1)
   V=$(grep -c "^VIOLATION" /dev/shm/seedlog_${P}_$M.txt); B=$(grep "^FAIL" /dev/shm/seedlog_${P}_$M.txt | head -2 | cut -c1-140 | tr '\n' '|')
